@@ -98,7 +98,7 @@ Switch == /\ l > 0 /\ ok /\ l < Len(Hist[h].ev) /\ Ev.op = "set_order" /\ Prop #
           /\ why' = "set_order" /\ l' = l + 1 /\ UNCHANGED h
 IndexLeft == /\ l = 0 /\ Ev.op = "index_left"
              /\ LET lst == [k \in 1..Ev.n |-> 2 * k] want == IndexLeftDecl(lst, Ev.rank) IN
-                ok' = (Ev.i64 = want /\ Ev.f64 = want)
+                ok' = (Ev.i64 = want /\ Ev.f64 = want /\ ("f64c" \in DOMAIN Ev => Ev.f64c = want + Ev.c))   \* left_count is an offset
              /\ why' = "index_left" /\ l' = 1 /\ UNCHANGED h
 \* a node set observed mid-life (the trace of the repository's own tests records every look-up an interpolation rule
 \* answers, with the nodes it was given): the nodes must be in date order and every look-up must be the rule's answer
